@@ -314,6 +314,12 @@ class LRI(dict):
                 setitem(k, F[k])
             return
 
+    def __ior__(self, other):
+        # dict.__ior__ would write to the dict storage only, bypassing
+        # the linked list and the size limit
+        self.update(other)
+        return self
+
     def __eq__(self, other):
         with self._lock:
             if self is other:
